@@ -287,6 +287,13 @@ func runWaitOnce(c WaitCase) (fail *evid.Failure, missed bool) {
 				if r == nil {
 					continue
 				}
+				if c.Waiters[i].Kind == "tcp" {
+					// the SYN is out (seen above); the handshake itself has no peer
+					if r.err == tcpip.ErrNoLinkAddress {
+						return evid.Failf("connect-after-answer", "waiter %d (tcp): Connect failed with ErrNoLinkAddress although the next hop was answered within the retry budget\n%s", i, dump()), false
+					}
+					continue
+				}
 				if r.timedOut {
 					return evid.Failf("deadline:write", "waiter %d: Write still reports ErrWouldBlock at the deadline although the next hop was answered\n%s", i, dump()), true
 				}
